@@ -10,8 +10,10 @@ import time
 VERIF = os.path.dirname(os.path.dirname(os.path.abspath(__file__)))
 REPO = os.environ.get('VERIF_REPO', '/repo')
 WORK = os.environ.get('VERIF_WORK', os.path.join(VERIF, '.work'))
-EVIDENCE_DIR = os.path.join(VERIF, 'evidence')
-REPLAY_DIR = os.path.join(VERIF, 'replays')
+# evidence / replays of runs against a scratch copy (self-test, VERIF_REPO set) never overwrite the real ones
+_SCRATCH_RUN = os.path.realpath(REPO) != '/repo'
+EVIDENCE_DIR = os.environ.get('VERIF_EVIDENCE_DIR', os.path.join(WORK, 'evidence') if _SCRATCH_RUN else os.path.join(VERIF, 'evidence'))
+REPLAY_DIR = os.environ.get('VERIF_REPLAY_DIR', os.path.join(WORK, 'replays') if _SCRATCH_RUN else os.path.join(VERIF, 'replays'))
 KNOWN_FINDINGS = os.path.join(VERIF, 'known-findings.txt')
 
 OFFLINE_ENV = {'CARGO_NET_OFFLINE': 'true', 'GOPROXY': 'off', 'PIP_NO_INDEX': '1'}
